@@ -10,11 +10,11 @@ import (
 	"time"
 
 	"github.com/bronlabs/bron-crypto/pkg/mpc"
+	"github.com/bronlabs/bron-crypto/pkg/proofs/sigma/compiler/fischlin"
 	"github.com/bronlabs/bron-crypto/pkg/signatures/bls"
 	"github.com/bronlabs/bron-crypto/pkg/signatures/ecdsa"
 	"github.com/bronlabs/bron-crypto/pkg/signatures/schnorrlike/bip340"
 	vanilla "github.com/bronlabs/bron-crypto/pkg/signatures/schnorrlike/schnorr"
-	"github.com/bronlabs/bron-crypto/pkg/proofs/sigma/compiler/fischlin"
 )
 
 type mpcBaseShardK256 = mpc.BaseShard[*k256Point, *k256Scalar]
